@@ -1,4 +1,24 @@
 import Bermuda.Model.CodecJson
-open Bermuda
-/-- line-protocol driver of the codec model (shared by C05, C06 and C19) -/
-def main : IO Unit := serve Codec.handle
+import Bermuda.Spec.C05
+open Lean Bermuda Bermuda.Codec
+
+/-- Line-protocol driver of the codec model (C05 / C06). Everything is `Codec.handle`; the answer to `pycase`
+(the writer as written, also on NON-coherent triangles) additionally carries the read-back oracle of theorem
+`C05.decode_encodePy_firstRepr`: `firstRepr cells`, and — when the request holds `impl`, what `from_binary`
+returned for the implementation's file — `readBackSpec = Spec.C05.roundTrip (firstRepr cells) impl`. -/
+def handlePy (j : Json) : Except String Json := do
+  let out ← Codec.handle j
+  match (← (← j.getObjVal? "op").getStr?) with
+  | "pycase" =>
+    let cells ← rawCellsFromJson (← j.getObjVal? "cells")
+    let fr := firstRepr cells
+    let impl ← optCells j "impl"
+    let extra := [("firstReprChanged", Json.bool (fr != cells))] ++
+      (match impl with
+       | some r => [("readBackSpec", Json.bool (Spec.C05.roundTrip fr r)),
+                    ("readBackIsOriginal", Json.bool (Spec.C05.roundTrip cells r))]
+       | none => [])
+    return out.mergeObj (Json.mkObj extra)
+  | _ => return out
+
+def main : IO Unit := serve handlePy
